@@ -18,8 +18,29 @@ def quiet():
 
 
 def gen_model(rng, L, bc='finite'):
-    kind = rng.choice(['TFI', 'TFI', 'XXZ', 'XXZ', 'Spin', 'Spin', 'Fermion'])
+    kind = rng.choice(['TFI', 'TFI', 'XXZ', 'XXZ', 'Spin', 'Spin', 'Fermion', 'SpinC', 'SpinC', 'SpinC', 'FermionC', 'FermionC'])
     p = dict(L=L, bc_MPS=bc)
+    if kind == 'SpinC':
+        # genuinely complex Hermitian Hamiltonian: Dzyaloshinskii-Moriya coupling muJ (keeps Sz) and/or a field hy
+        S = rng.choice([0.5, 0.5, 0.5, 1.0])
+        variant = rng.choice(['muJ', 'muJ', 'hy', 'muJ+hy'])
+        p.update(S=S, Jx=1.0, Jy=1.0, Jz=rng.choice([0.7, 1.0, 1.5]), hz=rng.choice([0.0, 0.1]))
+        if 'muJ' in variant:
+            p['muJ'] = rng.choice([0.6, -0.4, 1.1])
+        if 'hy' in variant:
+            p['hy'] = rng.choice([0.3, -0.5])
+            p['conserve'] = None
+        else:
+            p['conserve'] = rng.choice(['Sz', 'Sz', 'parity', None])
+        return 'Spin', p
+    if kind == 'FermionC':
+        # complex hopping J e^{i phi}
+        phi = rng.choice([0.4, 1.0, 2.2])
+        import cmath
+        Jc = cmath.rect(1.0, phi)
+        p.update(J=[Jc.real, Jc.imag], V=rng.choice([0.0, 1.0, 2.5]), mu=rng.choice([0.0, 0.3]),
+                 conserve=rng.choice(['N', 'parity']))
+        return 'Fermion', p
     if kind == 'TFI':
         p.update(J=rng.choice([1.0, 1.0, -0.7, 0.5]), g=rng.choice([0.3, 0.8, 1.0, 1.7]),
                  conserve=rng.choice([None, 'parity']))
@@ -65,7 +86,7 @@ def gen_product_state(rng, kind, p):
 
 
 def gen_case(rng, quick=True, part=None):
-    part = part or rng.choice(['dmrg'] * 8 + ['converge'] * 2)
+    part = part or rng.choice(['dmrg'] * 8 + ['converge'] * 2 + ['long'] * 2)
     L = rng.choice([3, 4, 4, 5, 6, 6, 7, 8] if quick else [3, 4, 5, 6, 7, 8, 9, 10])
     kind, p = gen_model(rng, L)
     if kind == 'Spin' and p.get('S') == 1.0:
@@ -76,6 +97,21 @@ def gen_case(rng, quick=True, part=None):
         engine = 'SingleSiteDMRGEngine'
     case = dict(part=part, kind=kind, model=p, engine=engine, init=gen_product_state(rng, kind, p))
     o = {}
+    if part == 'long':
+        # a run long enough for the mixer to be switched off well before the end: the returned state is canonical and
+        # the strict comparison E vs <psi|H|psi> applies; single-site engine with combine on/off and every eigensolver
+        case['part'] = part = 'dmrg'
+        case['engine'] = rng.choice(['SingleSiteDMRGEngine', 'SingleSiteDMRGEngine', 'TwoSiteDMRGEngine'])
+        o['mixer'] = True
+        o['mixer_params'] = {'amplitude': 1e-3, 'decay': 2.0, 'disable_after': 5}
+        o['trunc_params'] = {'chi_max': rng.choice([16, 64]), 'svd_min': 1e-12}
+        o['max_sweeps'] = 11
+        o['min_sweeps'] = 9
+        o['combine'] = rng.random() < 0.6
+        o['diag_method'] = rng.choice(['default', 'ED_block', 'lanczos', 'arpack'])
+        o['max_trunc_err'] = None
+        case['opts'] = o
+        return case
     if part == 'converge':
         case['engine'] = 'TwoSiteDMRGEngine'
         o['mixer'] = rng.choice([True, 'DensityMatrixMixer'])
@@ -100,7 +136,7 @@ def gen_case(rng, quick=True, part=None):
             o['chi_list'] = {0: rng.choice([1, 2]), rng.choice([1, 2]): chi}
         o['max_sweeps'] = rng.choice([0, 1, 2, 3, 5])
         o['min_sweeps'] = rng.choice([1, 1, 2])
-        if rng.random() < 0.3:
+        if rng.random() < 0.45:
             o['combine'] = True
         if rng.random() < 0.2:
             o['N_sweeps_check'] = 2
@@ -122,7 +158,10 @@ def build_model(kind, p):
     from tenpy.models.spins import SpinChain
     from tenpy.models.fermions_spinless import FermionChain
     cls = {'TFI': TFIChain, 'XXZ': XXZChain, 'Spin': SpinChain, 'Fermion': FermionChain}[kind]
-    return cls(dict(p))
+    p = dict(p)
+    if kind == 'Fermion' and isinstance(p.get('J'), list):
+        p['J'] = complex(*p['J'])
+    return cls(p)
 
 
 def snapshot(env):
@@ -147,6 +186,18 @@ def traced_engine(cls, rec, check_fresh):
             H = self.eff_H
             while hasattr(H, 'orig_operator'):
                 H = H.orig_operator
+            if check_fresh and H.N <= 150 and hasattr(H, 'to_matrix'):
+                try:
+                    d = effH_to_matrix_defect(H)
+                    err = None
+                except Exception as e:  # noqa: legs of to_matrix() that do not fit theta are a deviation as well
+                    d, err = float('inf'), f'{type(e).__name__}: {str(e)[:60]}'
+                rec['effH_checked'] = rec.get('effH_checked', 0) + 1
+                if d > rec.get('effH', 0.0):
+                    rec['effH'] = d
+                    if d > 1e-10:
+                        rec['effH_at'] = [len(rec['sweeps']) - 1, int(self.i0), bool(self.move_right), bool(self.combine),
+                                          type(H).__name__, err or float(d)]
             if check_fresh and self.psi.finite:
                 ref = MPOEnvironment(self.psi, self.model.H_MPO, self.psi)
                 n = self.n_optimize
@@ -181,6 +232,28 @@ def traced_engine(cls, rec, check_fresh):
 
     Traced.__name__ = cls.__name__
     return Traced
+
+
+def effH_to_matrix_defect(H):
+    """model-free check of an effective Hamiltonian: `to_matrix()` against the matrix whose columns are `matvec` applied
+    to the basis vectors, with exactly the conventions `full_diag_effH` relies on (the first pipe of the matrix is the
+    combination of `acts_on` with qconj=+1).  Returns the relative deviation."""
+    import tenpy.linalg.np_conserved as npc
+    mat = H.to_matrix()
+    pipe = mat.legs[0]
+    Md = mat.to_ndarray()
+    N = Md.shape[0]
+    dense = np.zeros((N, N), dtype=complex)
+    qflat = pipe.to_qflat()
+    for j in range(N):
+        e = np.zeros(N, dtype=complex)
+        e[j] = 1.0
+        v = npc.Array.from_ndarray(e, [pipe], qtotal=pipe.chinfo.make_valid(qflat[j] * pipe.qconj))
+        th = v.split_legs([0]).iset_leg_labels(H.acts_on)
+        w = H.matvec(th)
+        w = w.combine_legs(H.acts_on, qconj=+1)
+        dense[:, j] = w.to_ndarray()
+    return float(np.linalg.norm(dense - Md) / max(1.0, np.linalg.norm(dense)))
 
 
 def exact_ground_state(model, psi0, max_dim=5000):
@@ -240,6 +313,9 @@ def run_case(case):
     out['stale'] = rec.get('stale', 0.0)
     out['stale_at'] = rec.get('stale_at')
     out['cleanup'] = rec.get('cleanup')
+    out['effH'] = min(rec.get('effH', 0.0), 1e300)
+    out['effH_at'] = rec.get('effH_at')
+    out['effH_checked'] = rec.get('effH_checked', 0)
     psi0 = MPS.from_product_state(M.lat.mps_sites(), case['init'], bc=p['bc_MPS'])
     E0, gs, ed, gap, dim = exact_ground_state(M, psi0)
     out['E0'] = E0
@@ -353,4 +429,57 @@ def run_infinite_case(case):
     out['E_mpo'] = float(np.real(M.H_MPO.expectation_value(psi)))
     out['chi'] = [int(c) for c in psi.chi]
     out['sweeps_done'] = int(eng.sweeps)
+    return out
+
+
+# --------------------------------------------------------------------------------------------
+# effective Hamiltonians on random complex environments (model-free)
+
+
+def gen_effh_case(rng):
+    L = rng.choice([3, 4, 5, 6])
+    kind, p = gen_model(rng, L)
+    if kind == 'Spin' and p.get('S') == 1.0:
+        p['L'] = min(L, 4)
+    return dict(part='effh', kind=kind, model=p, engine='-', init=gen_product_state(rng, kind, p),
+                chi=rng.choice([2, 3, 4]), nseed=rng.getrandbits(32), opts={})
+
+
+def run_effh_case(case):
+    """`to_matrix()` of OneSiteH / TwoSiteH vs the matrix of `matvec` on basis vectors, for combine True/False and both
+    move directions, at every position of a random complex MPS (random unitary evolution of the product state, so the
+    charge structure of the model is kept) — environments LP/RP are genuinely complex."""
+    quiet()
+    from tenpy.algorithms.mps_common import OneSiteH, TwoSiteH
+    from tenpy.networks.mps import MPS
+    from tenpy.networks.mpo import MPOEnvironment
+    kind, p = case['kind'], case['model']
+    M = build_model(kind, p)
+    np.random.seed(case['nseed'])
+    psi = MPS.from_random_unitary_evolution(M.lat.mps_sites(), case['chi'], case['init'], bc='finite', dtype=complex)
+    env = MPOEnvironment(psi, M.H_MPO, psi)
+    L = p['L']
+    out = {'effH': 0.0, 'effH_checked': 0, 'sweeps_done': 0, 'complex_env': False}
+    for cls, n in ((OneSiteH, 1), (TwoSiteH, 2)):
+        for i0 in range(0, L - n + 1):
+            for combine in (False, True):
+                for mr in (True, False):
+                    try:
+                        H = cls(env, i0, combine, mr)
+                        if H.N > 200:
+                            continue
+                        d = effH_to_matrix_defect(H)
+                        # Hermitian operator and Hermitian environments: the matrix must be Hermitian as well
+                        Md = H.to_matrix().to_ndarray()
+                        herm = float(np.linalg.norm(Md - Md.conj().T) / max(1.0, np.linalg.norm(Md)))
+                    except Exception as e:  # noqa
+                        out['effH'] = float('inf')
+                        out['effH_at'] = [cls.__name__, i0, combine, mr, f'{type(e).__name__}: {str(e)[:60]}', None]
+                        continue
+                    out['effH_checked'] += 1
+                    out['complex_env'] = out['complex_env'] or bool(np.linalg.norm(np.imag(H.LP.to_ndarray())) > 1e-8)
+                    if max(d, herm) > out['effH']:
+                        out['effH'] = max(d, herm)
+                        if max(d, herm) > 1e-10:
+                            out['effH_at'] = [cls.__name__, i0, combine, mr, d, herm]
     return out
